@@ -17,6 +17,7 @@ type FItem struct {
 	W   string `json:"w,omitempty"`
 	Brk string `json:"brk,omitempty"` // \n \l \p \N
 	Sp  int    `json:"sp,omitempty"`
+	NL  bool   `json:"nl,omitempty"` // the separator before the item is a line break character (formats like one space)
 }
 
 type FFont struct {
@@ -42,7 +43,11 @@ type C07Case struct {
 func (c *C07Case) text() string {
 	var sb strings.Builder
 	for _, it := range c.Items {
-		sb.WriteString(strings.Repeat(" ", it.Sp))
+		if it.NL {
+			sb.WriteString("\n")
+		} else {
+			sb.WriteString(strings.Repeat(" ", it.Sp))
+		}
 		sb.WriteString(it.W + it.Brk)
 	}
 	return sb.String()
@@ -124,7 +129,7 @@ func splitLine(line string) []string {
 func (c *C07Case) normItems() []FItem {
 	var out []FItem
 	for _, it := range c.Items {
-		if it.W != "" && it.Sp == 0 && len(out) > 0 && out[len(out)-1].W != "" {
+		if it.W != "" && it.Sp == 0 && !it.NL && len(out) > 0 && out[len(out)-1].W != "" {
 			out[len(out)-1].W += it.W
 			continue
 		}
@@ -477,6 +482,9 @@ func genC07(t *rapid.T) *C07Case {
 				it.Sp = 1
 			}
 		}
+		if len(c.Items) > 0 && rapid.IntRange(0, 9).Draw(t, "nlsep") == 0 {
+			it.NL = true
+		}
 		c.Items = append(c.Items, it)
 	}
 	c.Lines = rapid.IntRange(1, 4).Draw(t, "lines")
@@ -528,7 +536,7 @@ func TestC07_Regress(t *testing.T) { runRegress(t, "C07") }
 
 func TestC07_Format(t *testing.T) {
 	st := stat("C07")
-	st.SetRule("texts of 1-14 items (words over ASCII and multi-byte letters, punctuation and {CONTROL} codes with and without arguments glued inside words; explicit \\n \\l \\p \\N glued or spaced; runs of spaces) with a generated font table (per-glyph widths 0-12, optional default, control-code and space widths incl. 0) or the TEST font; maxLineLength = width of a random run of words -1/0/+1 (optionally + overlap), numLines 1-4, cursor overlap 0 / small / wider than a word; 3 in 4 cases call FormatText directly (half of them on a FontConfig that has just formatted the same text with another font), 1 in 4 go through text T { format(...) } with the parameters given positionally (both orders), by name, by font config (of the default font, or of the font named by a positional / named fontId while another font is the default), or by the CLI defaults. oracle: overlap 0 => output equals the harness' greedy reference formatter; always => envelope (words and explicit breaks in order and unchanged, only single spaces, line width <= max resp. max - overlap on prompt lines unless a single word, every inserted break necessary, \\n / \\l discipline with \\p reset). non-trivial = >= 1 inserted break and a line within 1 pixel of its limit; distinct by (text, parameters)")
+	st.SetRule("texts of 1-14 items (words over ASCII and multi-byte letters, punctuation and {CONTROL} codes with and without arguments glued inside words; explicit \\n \\l \\p \\N glued or spaced; runs of spaces, line break characters as separators) with a generated font table (per-glyph widths 0-12, optional default, control-code and space widths incl. 0) or the TEST font; maxLineLength = width of a random run of words -1/0/+1 (optionally + overlap), numLines 1-4, cursor overlap 0 / small / wider than a word; 3 in 4 cases call FormatText directly (half of them on a FontConfig that has just formatted the same text with another font), 1 in 4 go through text T { format(...) } with the parameters given positionally (both orders), by name, by font config (of the default font, or of the font named by a positional / named fontId while another font is the default), or by the CLI defaults. oracle: overlap 0 => output equals the harness' greedy reference formatter; always => envelope (words and explicit breaks in order and unchanged, only single spaces, line width <= max resp. max - overlap on prompt lines unless a single word, every inserted break necessary, \\n / \\l discipline with \\p reset). non-trivial = >= 1 inserted break and a line within 1 pixel of its limit; distinct by (text, parameters)")
 	st.Assume("backslashes occur only as the four break codes; braces are balanced and not nested", "the cursor overlap is demanded on lines ending in \\p, or in \\l at paragraph line index >= numLines-1 (weakest reading)", "a named/positional parameter value <= 0 means 'use the font config value'")
 	runRapid(t, "C07", "TestC07_Format", genC07, checkC07, c07Src)
 }
